@@ -92,6 +92,11 @@ def main() -> int:
         j = run.job(d, want=["manifest"], plan={"fn": "models", "args": {"seed": seed(), "per_model": 14}})
         info[j["id"]] = {"label": label, "cfg": {}, "features": {"sharing"}}
         jobs.append(j)
+    for label, d in docs.union_model_docs():
+        for le in (False, True):
+            j = run.job(d, want=["manifest"], plan={"fn": "models", "args": {"seed": seed(), "per_model": 40}}, cfg={"literal_enums": le})
+            info[j["id"]] = {"label": label, "cfg": {"literal_enums": le}, "features": {"union_models", label.split(":")[1]}}
+            jobs.append(j)
     for k, (label, d) in enumerate(docs.interplay_docs()):
         if not d["components"]["schemas"] or (quick and k % 3 and "enum_same_class_name" not in label and "redeclared_required" not in label):
             continue
